@@ -16,7 +16,7 @@ namespace TTV.DeferredSkel
 open TTV.Deferred
 
 /-- guard of an arm: which capture lists are non-empty -/
-inductive Guard | both | failures | successes | notCalled | otherwise | unknown
+inductive Guard | both | failures | successes | neither | notCalled | otherwise | unknown
 deriving DecidableEq, Repr
 
 inductive Arm | raiseImpossible | callFailure | callSuccess | callNoResult | unknown
@@ -64,6 +64,7 @@ def Guard.holds (got : Option Res) (called : Bool) : Guard → Option Bool
   | .both => some false            -- one of callback / errback runs, never both
   | .failures => some (match got with | some (.fail _) => true | _ => false)
   | .successes => some (match got with | some (.ok _) => true | _ => false)
+  | .neither => some got.isNone    -- `not successes and not failures`
   | .notCalled => some (!called)
   | .otherwise => some true
   | .unknown => none
